@@ -3,11 +3,13 @@
   statement w2c2 emits (dispatch table and macros regenerated from the current c.c / w2c2_base.h),
   evaluated by the UB-tracking C semantics `CSem` on ARBITRARY operand values, is never undefined:
   no signed overflow, no shift by >= width, no division overflow, no out-of-range float-to-int
-  conversion, no use of a builtin outside its domain.  (Corollaries of C01Ops / C02Ops, which show
-  each evaluation to be a value or the specified trap.)
+  conversion, no use of a builtin outside its domain.  (Corollaries of C01Ops / C02Ops / C02TruncOps, which
+  show each evaluation to be a value or the specified trap; for the 16 float-to-int truncations this rests on
+  the exactness of the range guards, Props/C02Guards.)
 -/
 import W2c2Verif.Props.C01Ops
 import W2c2Verif.Props.C02Ops
+import W2c2Verif.Props.C02TruncOps
 
 namespace W2c2Verif.Props.C11
 open W2c2Verif
@@ -861,6 +863,30 @@ theorem no_ub_f64_copysign (x : BitVec 64) (y : BitVec 64) (k : UBKind) :
   | (simp only [Spec.idiv_s, Spec.idiv_u, Spec.irem_s, Spec.irem_u]; repeat' split
      all_goals (intro h; cases h))
 
+theorem no_ub_i32_trunc_f32_s (x : BitVec 32) (k : UBKind) :
+    Model.runNumeric C01.macroDefs "wasmOpcodeI32TruncF32S" [(.f32, .f32 x)] ≠ .ub k := C02.no_ub_i32_trunc_f32_s x k
+
+theorem no_ub_i32_trunc_f32_u (x : BitVec 32) (k : UBKind) :
+    Model.runNumeric C01.macroDefs "wasmOpcodeI32TruncF32U" [(.f32, .f32 x)] ≠ .ub k := C02.no_ub_i32_trunc_f32_u x k
+
+theorem no_ub_i32_trunc_f64_s (x : BitVec 64) (k : UBKind) :
+    Model.runNumeric C01.macroDefs "wasmOpcodeI32TruncF64S" [(.f64, .f64 x)] ≠ .ub k := C02.no_ub_i32_trunc_f64_s x k
+
+theorem no_ub_i32_trunc_f64_u (x : BitVec 64) (k : UBKind) :
+    Model.runNumeric C01.macroDefs "wasmOpcodeI32TruncF64U" [(.f64, .f64 x)] ≠ .ub k := C02.no_ub_i32_trunc_f64_u x k
+
+theorem no_ub_i64_trunc_f32_s (x : BitVec 32) (k : UBKind) :
+    Model.runNumeric C01.macroDefs "wasmOpcodeI64TruncF32S" [(.f32, .f32 x)] ≠ .ub k := C02.no_ub_i64_trunc_f32_s x k
+
+theorem no_ub_i64_trunc_f32_u (x : BitVec 32) (k : UBKind) :
+    Model.runNumeric C01.macroDefs "wasmOpcodeI64TruncF32U" [(.f32, .f32 x)] ≠ .ub k := C02.no_ub_i64_trunc_f32_u x k
+
+theorem no_ub_i64_trunc_f64_s (x : BitVec 64) (k : UBKind) :
+    Model.runNumeric C01.macroDefs "wasmOpcodeI64TruncF64S" [(.f64, .f64 x)] ≠ .ub k := C02.no_ub_i64_trunc_f64_s x k
+
+theorem no_ub_i64_trunc_f64_u (x : BitVec 64) (k : UBKind) :
+    Model.runNumeric C01.macroDefs "wasmOpcodeI64TruncF64U" [(.f64, .f64 x)] ≠ .ub k := C02.no_ub_i64_trunc_f64_u x k
+
 theorem no_ub_f32_convert_i32_s (x : BitVec 32) (k : UBKind) :
     Model.runNumeric C01.macroDefs "wasmOpcodeF32ConvertI32S" [(.i32, .u32 x)] ≠ .ub k := by
   rw [C02.op_f32_convert_i32_s]
@@ -973,11 +999,34 @@ theorem no_ub_f64_reinterpret_i64 (x : BitVec 64) (k : UBKind) :
   | (simp only [Spec.idiv_s, Spec.idiv_u, Spec.irem_s, Spec.irem_u]; repeat' split
      all_goals (intro h; cases h))
 
-/-- number of opcodes covered -/
-def coveredOpcodes : Nat := 120
+theorem no_ub_i32_trunc_sat_f32_s (x : BitVec 32) (k : UBKind) :
+    Model.runNumeric C01.macroDefs "wasmMiscOpcodeI32TruncSatF32S" [(.f32, .f32 x)] ≠ .ub k := C02.no_ub_i32_trunc_sat_f32_s x k
 
-/-- float-to-int truncations: the cast is guarded by the TRUNC macros; that the guard excludes every
-    out-of-range operand (`trunc_guard_exact`) is not yet proved (tied by boundary-neighbour runs under UBSan) -/
-def pendingOpcodes : List String := ["i32_trunc_f32_s", "i32_trunc_f32_u", "i32_trunc_f64_s", "i32_trunc_f64_u", "i64_trunc_f32_s", "i64_trunc_f32_u", "i64_trunc_f64_s", "i64_trunc_f64_u", "i32_trunc_sat_f32_s", "i32_trunc_sat_f32_u", "i32_trunc_sat_f64_s", "i32_trunc_sat_f64_u", "i64_trunc_sat_f32_s", "i64_trunc_sat_f32_u", "i64_trunc_sat_f64_s", "i64_trunc_sat_f64_u"]
+theorem no_ub_i32_trunc_sat_f32_u (x : BitVec 32) (k : UBKind) :
+    Model.runNumeric C01.macroDefs "wasmMiscOpcodeI32TruncSatF32U" [(.f32, .f32 x)] ≠ .ub k := C02.no_ub_i32_trunc_sat_f32_u x k
+
+theorem no_ub_i32_trunc_sat_f64_s (x : BitVec 64) (k : UBKind) :
+    Model.runNumeric C01.macroDefs "wasmMiscOpcodeI32TruncSatF64S" [(.f64, .f64 x)] ≠ .ub k := C02.no_ub_i32_trunc_sat_f64_s x k
+
+theorem no_ub_i32_trunc_sat_f64_u (x : BitVec 64) (k : UBKind) :
+    Model.runNumeric C01.macroDefs "wasmMiscOpcodeI32TruncSatF64U" [(.f64, .f64 x)] ≠ .ub k := C02.no_ub_i32_trunc_sat_f64_u x k
+
+theorem no_ub_i64_trunc_sat_f32_s (x : BitVec 32) (k : UBKind) :
+    Model.runNumeric C01.macroDefs "wasmMiscOpcodeI64TruncSatF32S" [(.f32, .f32 x)] ≠ .ub k := C02.no_ub_i64_trunc_sat_f32_s x k
+
+theorem no_ub_i64_trunc_sat_f32_u (x : BitVec 32) (k : UBKind) :
+    Model.runNumeric C01.macroDefs "wasmMiscOpcodeI64TruncSatF32U" [(.f32, .f32 x)] ≠ .ub k := C02.no_ub_i64_trunc_sat_f32_u x k
+
+theorem no_ub_i64_trunc_sat_f64_s (x : BitVec 64) (k : UBKind) :
+    Model.runNumeric C01.macroDefs "wasmMiscOpcodeI64TruncSatF64S" [(.f64, .f64 x)] ≠ .ub k := C02.no_ub_i64_trunc_sat_f64_s x k
+
+theorem no_ub_i64_trunc_sat_f64_u (x : BitVec 64) (k : UBKind) :
+    Model.runNumeric C01.macroDefs "wasmMiscOpcodeI64TruncSatF64U" [(.f64, .f64 x)] ≠ .ub k := C02.no_ub_i64_trunc_sat_f64_u x k
+
+/-- number of opcodes covered -/
+def coveredOpcodes : Nat := 136
+
+/-- opcodes without a no-UB theorem (none) -/
+def pendingOpcodes : List String := []
 
 end W2c2Verif.Props.C11
